@@ -490,7 +490,14 @@ fn matrix_call(x: usize, t: usize, v: usize) -> String {
 /// programs whose outcome hangs on process-wide or thread-wide state if anything does: empty sums and
 /// products (the helper is chosen among lazily built types), structs built at run time and tested by
 /// type (their types are recomputed per value), defaults of union types
-const STATEFUL: [&str; 16] = [
+const STATEFUL: [&str; 22] = [
+    // fillers that are cells, written to (a filler is made for the iterator that yields it)
+    "it := [mut 5]~; it(); f := it().1; f += 7; *f",
+    "it := [mut 5]~; it(); f := it().1; g := it().1; f += 7; (*f, *g, f == g)",
+    "it := [mut 5]~ ? mut int; it(); f := it().1; f += 7; *f",
+    "it := [1]~ ? mut int; f := it().1; f += 7; *f",
+    "it := [mut \"a\"]~ @ (c: mut string) -> mut string { return c; }; it(); f := it().1; f += \"x\"; *f",
+    "it := [(mut 1, 2)]~; it(); t := it().1; c := t.0; c += 7; *c",
     "[]~ $+",
     "[]~ $*",
     "x := []~ $+; x + 1",
